@@ -75,7 +75,7 @@ def parse_dump(lines):
 
 def split_ops(toks):
     """group the token lines of a case by leading op line: returns list of (head tokens, following detail lines)"""
-    heads = {"NUM", "GETVAL", "PRINTNUM", "LOAD", "PUT", "CAT", "TRYREAD", "READ", "READP", "WRITE", "P", "TRYBASIS", "SOLVE", "OPT",
+    heads = {"SOLUTION", "ILP", "NUM", "GETVAL", "PRINTNUM", "LOAD", "PUT", "CAT", "TRYREAD", "READ", "READP", "WRITE", "P", "TRYBASIS", "SOLVE", "OPT",
              "BASIS", "LOADBASIS", "WRITEBASIS", "READBASIS", "READLOADBASIS", "BOPT", "PRINTSOL", "FREE", "NOPROB", "UNKNOWN"}
     out = []
     for t in toks:
